@@ -10,7 +10,7 @@
    filter, every iteration order. *)
 From Coq Require Import ZArith List Bool Permutation Sorted.
 From Verif Require Import Annotate.Model Annotate.SortProofs Annotate.Plans Annotate.Determinism
-  C11.Spec C11.Proofs C11.Exact C11.TimeTravel C11.Generic C12.Proofs.
+  C11.Spec C11.Proofs C11.Exact C11.TimeTravel C11.Generic C11.FindVisibleSpec C12.Proofs.
 Import ListNotations.
 Open Scope Z_scope.
 
@@ -316,6 +316,34 @@ Theorem C11_next_version_covers : forall cis o cl np s nv,
 Proof. exact nv_covers. Qed.
 Print Assumptions C11_next_version_covers.
 
+
+(* 14. find_visible_spec — timestamp regime (commit times of the child unknown), windows without
+       deleted versions ([Hwin]; the version before the window may be deleted).  FindVisible
+       returns the CLOSEST CANDIDATE: candidates are the versions stamped inside
+       [at - eps, at + eps], those stamped after [at] only if they belong to the parent's changeset;
+       closest for |stamp - at|, the later version on ties; and when there is no candidate, the
+       previous version (VersionBefore(at - eps): the last one stamped before the window) if it is
+       visible.  (A deleted version INSIDE the window does not reset the choice except at the exact
+       window start, and it shortens the reach of later candidates: those corners are excluded by
+       [Hwin] and covered by correspondence only.) *)
+Theorem C11_find_visible_spec : forall cis cid at_ eps cl,
+  0 <= eps -> mono cis cl -> forallb (ts_child cis) cl = true ->
+  (forall c, In c cl -> in_win cis at_ eps c -> c_visible c = true) ->
+  find_visible_spec cis cid at_ eps cl (find_visible cis cl cid at_ eps).
+Proof. exact find_visible_meets_spec. Qed.
+Print Assumptions C11_find_visible_spec.
+
+Example C11_hyps_find_visible_spec :
+  0 <= o_threshold g_opts /\ mono g_cis g_cl /\ forallb (ts_child g_cis) g_cl = true /\
+  (forall c, In c g_cl -> in_win g_cis (g_t 0) (o_threshold g_opts) c -> c_visible c = true) /\
+  (exists c, In c g_cl /\ cand g_cis 7 (g_t 0) (o_threshold g_opts) c).
+Proof.
+  split; [vm_compute; discriminate|]. split; [apply stamps_monotone_mono; vm_compute; reflexivity|].
+  split; [vm_compute; reflexivity|]. split.
+  - intros c Hc _. revert c Hc. apply forallb_forall. vm_compute. reflexivity.
+  - eexists. split; [right; left; reflexivity|]. unfold cand, in_win. vm_compute.
+    repeat split; try discriminate. right. reflexivity.
+Qed.
 
 (* ---- non-vacuity: the witness history of C12/Proofs.v (node 100: v1 before the way, v2 and v3
    in the same second after it; commit-time regime) ---- *)
